@@ -21,7 +21,6 @@ import (
 	"runtime"
 	"sort"
 	"strings"
-	"syscall"
 	"time"
 
 	"github.com/knz/shakespeare/pkg/cmd"
@@ -88,26 +87,8 @@ func convPos(p cmd.VerifPos) posT { return posT{p.File, p.Line} }
 
 var watchdog = 10 * time.Second
 
-// guarded runs f under the watchdog; false (and hung set) when f did not
-// come back.
-func guarded(f func()) bool {
-	if hung {
-		return false
-	}
-	done := make(chan struct{})
-	go func() { f(); close(done) }()
-	select {
-	case <-done:
-		return true
-	case <-time.After(watchdog):
-		hung = true
-		return false
-	}
-}
-
-// hung is set when a parse did not come back: its goroutine is still
-// running (and may eat processor and memory), so no further experiment is
-// started; the harness writes out what it has, the hang included.
+// hung is set after three cases did not come back (or 25 killed the parser):
+// no further experiment is started; the harness writes out what it has.
 var hung bool
 
 var nObserved int
@@ -130,28 +111,32 @@ func releaseDescriptors() {
 	}
 }
 
+// observe runs one parse (parseDefines, newReader, parseCfg, compileV2 and the
+// rendering of the diagnostic) in the child process.
 func observe(in *input) obsT {
-	type ret struct{ r cmd.VerifC09Result }
-	var r cmd.VerifC09Result
 	if hung {
 		return obsT{Kind: "skipped"}
 	}
-	tick()
+	rs, st := call(&request{Kind: "parse", In: in})
+	switch {
+	case st.OK:
+		return *rs.Obs
+	case st.Timeout:
+		return obsT{Kind: "timedout"}
+	case st.Fatal != "":
+		return obsT{Kind: "fatal", Panic: st.Fatal}
+	}
+	return obsT{Kind: "skipped"}
+}
+
+// observeLocal is what the child does for one parse.
+func observeLocal(in *input) obsT {
+	var r cmd.VerifC09Result
 	for attempt := 0; ; attempt++ {
-		ch := make(chan ret, 1)
-		go func() {
-			ch <- ret{cmd.VerifC09Parse(in.Files, in.Dirs, in.Main, in.Defines, in.IP)}
-		}()
-		select {
-		case x := <-ch:
-			r = x.r
-		case <-time.After(watchdog):
-			hung = true
-			return obsT{Kind: "timedout"}
-		}
+		r = cmd.VerifC09Parse(in.Files, in.Dirs, in.Main, in.Defines, in.IP)
 		// The parser never closes the files it opens (subreader.f is never
 		// set); their descriptors are only released by finalizers.  When the
-		// experiment itself could not be set up for lack of descriptors,
+		// experiment could not be set up, or failed, for lack of descriptors,
 		// collect and try again.
 		if r.Phase == "setup" || strings.Contains(r.ErrShort, "too many open files") {
 			releaseDescriptors()
@@ -275,7 +260,7 @@ func coqObs(o obsT) string {
 	switch o.Kind {
 	case "accepted":
 		return "(PAccepted " + coqPairs(o.PVars) + ")"
-	case "panicked":
+	case "panicked", "fatal":
 		return "PPanicked"
 	case "timedout":
 		return "PTimedOut"
@@ -359,6 +344,7 @@ func main() {
 	shards := flag.Int("shards", 8, "")
 	corpus := flag.String("corpus", "", "directory of corpus cases (JSON inputs) run first")
 	onlyCorpus := flag.Bool("only-corpus", false, "run the corpus cases only (replays)")
+	child := flag.Bool("child", false, "serve experiments on fd 3/4 (internal)")
 	flag.Parse()
 	rng := vh.Rng(*seed)
 
@@ -368,20 +354,18 @@ func main() {
 	if devnull, err := os.Open(os.DevNull); err == nil {
 		os.Stdin = devnull
 	}
-	// A runaway include would otherwise open files up to the (large) system
-	// limit before failing.
-	var rl syscall.Rlimit
-	if syscall.Getrlimit(syscall.RLIMIT_NOFILE, &rl) == nil && rl.Cur > 4096 {
-		rl.Cur = 4096
-		_ = syscall.Setrlimit(syscall.RLIMIT_NOFILE, &rl)
+	if *child {
+		os.Stderr, _ = os.OpenFile(os.DevNull, os.O_WRONLY, 0) // the parser prints warnings; fd 2 itself stays the parent's pipe
+		childMain()
+		return
 	}
 	priv, err := os.MkdirTemp("", "shk-c09-")
 	if err != nil {
 		panic(err)
 	}
 	defer os.RemoveAll(priv)
-	os.Setenv("TMPDIR", priv)
-	os.Stderr, _ = os.OpenFile(os.DevNull, os.O_WRONLY, 0) // the parser prints warnings
+	os.Setenv("TMPDIR", priv) // inherited by the children
+	defer stopChild()
 
 	scale := 1
 	if *tier == "thorough" {
